@@ -331,15 +331,33 @@ namespace igris
             reserve(m_size + sz);
             size_t oldsize = m_size;
             shift_up(_pos, sz);
-            for (size_t k = 0; k < sz; ++k)
+            size_t k = 0;
+            try
             {
-                size_t src = _first + k;
-                const T &ref =
-                    own ? m_data[src < _pos ? src : src + sz] : first[k];
-                if (_pos + k < oldsize)
-                    m_data[_pos + k] = ref;
-                else
-                    igris::constructor(m_data + _pos + k, ref);
+                for (; k < sz; ++k)
+                {
+                    size_t src = _first + k;
+                    const T &ref =
+                        own ? m_data[src < _pos ? src : src + sz] : first[k];
+                    if (_pos + k < oldsize)
+                        m_data[_pos + k] = ref;
+                    else
+                        igris::constructor(m_data + _pos + k, ref);
+                }
+            }
+            catch (...)
+            {
+                // a copy threw: keep the elements in front of pos and the k
+                // copies made so far, destroy every other object (moved-from
+                // ones below oldsize, the tail that was moved up; the slots
+                // between hold no object)
+                for (size_t i = _pos + k; i < oldsize + sz; ++i)
+                {
+                    if (i < oldsize || i >= _pos + sz)
+                        igris::destructor(m_data + i);
+                }
+                m_size = _pos + k;
+                throw;
             }
             m_size += sz;
 
